@@ -5,7 +5,7 @@ from tools import chan, vlib
 class C27(vlib.Spec):
     model_vo = ["theories/Chan/ModelWakeChk.vo"]  # definitions only
     props_vo = "theories/Props/C27.vo"
-    theorems = ["C27_never_missed", "C27_owed_enabled", "C27_progress"]
+    theorems = ["C27_never_missed", "C27_owed_enabled", "C27_progress", "C27_notify_first_refuted"]
     crate, group, binary = "h_chan", "dfir", "h_chan"
     imports = ("From Coq Require Import List NArith.\nImport ListNotations.\n"
                "From HV Require Import Chan.Base Chan.ModelWake Chan.ModelWakeChk.")
@@ -19,11 +19,13 @@ class C27(vlib.Spec):
                    "AtomicWaker::register / wake are atomic steps (its internal REGISTERING/WAKING protocol is trusted)",
                    "tokio is not modelled: the executor is 'a task whose waker fired is polled again'; yield_now is "
                    "executed outside a runtime (wakes immediately); the tick body does not suspend",
-                   "the harness is single-threaded: store and notify of one wake_by_ref are never separated by runner "
-                   "steps on the real code (they are in the model)"]
+                   "the harness is single-threaded: the only interleaving of the runner with the inside of wake_by_ref "
+                   "that it produces on the real code is the inline executor's poll inside task_waker.wake(); other "
+                   "separations of store and notify are covered by the model only"]
     rule = ("schedules firing the external waker the k-th time (k<3) the runner reaches one of 10 program points "
             "(the 9 hook points between the atomic operations + executor idle): all 30 single placements, all "
-            "unordered pairs (k<2: 210 quick; k<3: 465 thorough), random 3-5 wake schedules; non-trivial = at least one wake fired and at least 2 ticks "
+            "unordered pairs (k<2: 210 quick; k<3: 465 thorough), random 3-5 wake schedules; each also with an executor whose task waker polls the runner inline "
+            "inside wake() (then at least one wake fires while the executor is idle); non-trivial = at least one wake fired and at least 2 ticks "
             "ran; distinct by case hash")
 
     def gen(self, rng, tier, n):
